@@ -22,6 +22,11 @@
 #define MAX_NESTED_MACROS 128
 #define MAX_MACRO_LEN 1024
 #define MACROS_HEAP_SIZE 32768
+
+#if defined(NAKEN_ASM_VERIF) && defined(NAKEN_ASM_VERIF_MACROS_HEAP_SIZE)
+#undef MACROS_HEAP_SIZE
+#define MACROS_HEAP_SIZE NAKEN_ASM_VERIF_MACROS_HEAP_SIZE
+#endif
 #define MAX_MACRO_LEN 1024
 #define CHAR_EOF -1
 #define IS_DEFINE 1
